@@ -443,6 +443,11 @@ FlowMod(x, cmd, f, buf) ==
 (* "badhw".  A valid port-mod is not answered (the PORT_STATUS notification *)
 (* it may cause is not a reply and is outside this property).               *)
 
+\* port numbers a port-mod can name that the switch does not have: an absent physical port, and the
+\* reserved numbers (a port-mod for OFPP_LOCAL / OFPP_NONE / OFPP_FLOOD ... is refused like any other)
+PLocal == 65534       \* OFPP_LOCAL (the software switch has no local port)
+BadModPorts == IF Thin THEN {Absent, PLocal} ELSE {Absent, PLocal, PNone, PAll, ResOut, ResOther}
+
 PortMod(x, kind, p, dn) ==
   /\ CfgUnch /\ TblUnch /\ UNCHANGED <<prx, ptx, pool>>
   /\ CASE kind = "set" ->
@@ -450,7 +455,7 @@ PortMod(x, kind, p, dn) ==
             /\ Log("PortMod", "PortMod-set", [xid |-> x, kind |-> kind, p |-> p, dn |-> dn], None)
        [] kind = "badport" ->
             /\ UNCHANGED down
-            /\ Log("PortMod", "PortMod-badport", [xid |-> x, kind |-> kind, p |-> Absent, dn |-> dn],
+            /\ Log("PortMod", "PortMod-badport", [xid |-> x, kind |-> kind, p |-> p, dn |-> dn],
                    ErrAlts(x, ET.portmod, <<0>>))                 \* BAD_PORT
        [] kind = "badhw" ->
             /\ UNCHANGED down
@@ -564,7 +569,7 @@ Step(x) ==
   \/ FlowMod(x, "addbad", "f1", "live")
   \/ \E b \in {"live", "stale", "bogus"} : FlowMod(x, "add", "f1", b)
   \/ \E p \in TPorts, dn \in BOOLEAN : PortMod(x, "set", p, dn)
-  \/ PortMod(x, "badport", 1, FALSE)
+  \/ \E p \in BadModPorts : PortMod(x, "badport", p, FALSE)
   \/ PortMod(x, "badhw", 1, TRUE)
   \/ StatsDesc(x)
   \/ \E a \in FlowArgs : StatsFlow(x, a[1], a[2], a[3])
